@@ -69,7 +69,7 @@ def run(ctx):
         base.append(wf)
         variants.append({'perm': permute(wf, rng), 'ren': rename_wf(wf, mapping), 'mapping': mapping})
     reps = {}
-    for name, wf in pc.invalid_next_to_any_field_shapes():
+    for name, wf in pc.invalid_next_to_any_field_shapes() + pc.group_collision_shapes():
         # texts that must be refused - every time
         mapping = {'a': 'zeta', 'b': 'alpha'}
         base.append(wf)
